@@ -1,12 +1,11 @@
 SPECIFICATION Spec
 CONSTANTS
-  Ls = {4}
-  Family = "rot2"
-  OpKinds = {}
-  Chunk = 40
+  Mode = "terms"
+  L = 4
+  Batch = 50
   Stride = 1
   Offset = 0
-  MaxGuest = 2
+  MaxTok = 3
   Devs = {"RgPt", "BwRev", "BwOrigin", "WrapSlice"}
 INVARIANT DesignOK
 CHECK_DEADLOCK FALSE
